@@ -65,6 +65,11 @@ class C04(ProgramProperty):
     def budget(self, tier):
         return 3000 if tier == "quick" else 100000
 
+    def exhaustive(self, tier):
+        from .. import smallscope
+
+        return smallscope.run_collections(tier)
+
     def gen(self, rng, tier):
         big = rng.random() < 0.15
         recs = gen.records(rng, ":", nrec=rng.randint(7, 12) if big else None, forbid_delim=False)
@@ -80,7 +85,8 @@ class C04(ProgramProperty):
             else:
                 recs[k]["us"] = recs[k]["us"] + [recs[k]["u"]]
             kinds = ["self-synonym"]
-        steps = [init_step(0, recs), {"op": "dups", "records": recs}]
+        steps = [dict(init_step(0, recs), container=rng.choice(["list", "list", "tuple", "iter", "generator", "dict_values"])),
+                 {"op": "dups", "records": recs}]
         steps += [q(0, "records"), q(0, "bimap"), q(0, "reverse_bimap"), q(0, "get_prefixes", s=True),
                   q(0, "get_uri_prefixes", s=True), q(0, "prefix_map"), q(0, "reverse_prefix_map")]
         # the loaders, on the projections they can express
